@@ -49,13 +49,13 @@ var props = []*core.Property{
 		technique:  "constant folding of the tree initialisers + token grammar; provenance (taint-with-sanitiser) rule on the clone; path-sensitive error discipline on the entry points' CFGs",
 		expl:       "decides the shape of what detection can return: which strings can become a result's type, which parameters can be attached and how, what the parent chain is made of, what accompanies an error",
 		notCovered: []string{"that mime.FormatMediaType -> mime.ParseMediaType round-trips every label (stdlib behaviour)"},
-		rules:      []*core.Rule{ruleNames, ruleTreeWF, ruleParams, ruleCloneChain, ruleErrorReturns, ruleSnifferMap}}),
+		rules:      []*core.Rule{ruleNames, ruleTreeWF, ruleParams, ruleCloneChain, ruleElemPointers, ruleErrorReturns, ruleSnifferMap}}),
 	mk(pd{id: "C03", level: "other",
 		levelText:  "The tree is well formed (single parent, rooted) and the only function that invokes detectors is a first-match descent (recursive, or one of the two loop forms) over the current node's children with unmodified arguments, returning the clone of exactly the static parent chain, inside one read-lock region; pooled helper state that detectors use is reset before use, so a detector's verdict is a function of the header. These are necessary and, with the trusted base, sufficient for the reported hierarchy to be the first-match deepest path.",
 		technique:  "tree reconstruction from type-checked initialisers; shape rules on the walk's SSA (forward full-range loop, call arguments, edges); lockset",
 		expl:       "decides the walk discipline and the clone chain for every input and every tree reachable by Extend",
 		notCovered: []string{"an independent re-walk per input (runtime)"},
-		rules:      []*core.Rule{ruleTreeWF, ruleWalkDiscipline, ruleCloneChain, ruleSnapshot, ruleExtend, rulePools}}),
+		rules:      []*core.Rule{ruleTreeWF, ruleWalkDiscipline, ruleCloneChain, ruleElemPointers, ruleSnapshot, ruleExtend, rulePools}}),
 	mk(pd{id: "C04", level: "other",
 		levelText:  "No hidden inputs or outputs: the walk receives exactly in[:limit] for the snapshot limit (order types tabulated); no detector, sniffer or entry writes through its input slice; no store to package state outside initialisers; pooled objects are typed, reset before use, and every scanner field written during scanning is reset; no nondeterministic source. Sufficient for purity modulo the trusted base.",
 		technique:  "finite-domain tabulation of the slicing decision; write-through-parameter summaries over the call graph with an external contract table; pool typestate by dominance; store inventory",
@@ -121,13 +121,13 @@ var props = []*core.Property{
 		technique:  "shape rules on Extend's SSA; lockset regions; origin analysis",
 		expl:       "with C03's rules, structurally complete for the priority and isolation clauses",
 		notCovered: []string{},
-		rules:      []*core.Rule{ruleExtend, ruleLookup, ruleWalkDiscipline, ruleFreshResults, ruleWriteOnce, ruleSnapshot, ruleParams, rulePkgState}}),
+		rules:      []*core.Rule{ruleExtend, ruleLookup, ruleWalkDiscipline, ruleFreshResults, ruleWriteOnce, ruleSnapshot, ruleParams, rulePkgState, ruleElemPointers}}),
 	mk(pd{id: "C15", level: "other",
 		levelText:  "Both operands of every comparison in Is / EqualsAny are ParseMediaType results, except alias operands, which are registered normalised; every registered name and alias is a lower-case token/token; every alias / candidate is visited; lookup compares exactly; results' type strings come only from FormatMediaType over a registered name; every result copy carries the aliases of the node it was made from.",
 		technique:  "value-provenance rule on string comparisons; token grammar on folded constants; field-copy rule on result clones",
 		expl:       "decides normalisation discipline of the equality helpers",
 		notCovered: []string{"ParseMediaType invariances (stdlib)"},
-		rules:      []*core.Rule{ruleAliases, ruleNames, ruleEquality, ruleLookup, ruleParams, rulePkgState, ruleCloneChain}}),
+		rules:      []*core.Rule{ruleAliases, ruleNames, ruleEquality, ruleLookup, ruleParams, rulePkgState, ruleCloneChain, ruleElemPointers}}),
 	mk(pd{id: "C16", level: "proof",
 		levelText:  "Every recursive SCC of module functions is either the scanner family — guard tabulated around the cap, depth grows on every cycle through the guard, every construction installs a positive constant cap, nothing overwrites it, entry at depth 0 — or structural over the tree's children. On the capped edge the scanner fails and failure propagates.",
 		technique:  "Tarjan SCC inventory over static calls; finite-domain tabulation of the guard; shortest-cycle increment; constructor/store inventory",
